@@ -131,7 +131,16 @@ func GenRandom(out string, seed int64, n, maxn int) error {
 			}
 			return r.Intn(2*wide+1) - wide
 		}
-		switch r.Intn(5) {
+		switch r.Intn(7) {
+		case 5, 6: // stretched copy: aspect ratio 2^a along one axis (circles become ellipses: a different triangulation)
+			a := 1 + r.Intn(9)
+			if r.Intn(2) == 0 {
+				c.Ax = a
+			} else {
+				c.Ay = a
+			}
+			c.K = r.Intn(13) - 8
+			c.Tag += "-stretched"
 		case 0, 3: // scaled copy (odd multiplier: scales between the powers of two)
 			c.K = scale(40)
 			c.Mul = 1 + 2*r.Intn(32)
@@ -149,6 +158,77 @@ func GenRandom(out string, seed int64, n, maxn int) error {
 		}
 		if err := enc.Encode(c); err != nil {
 			return err
+		}
+	}
+	return nil
+}
+
+// GenAspect writes the aspect-ratio ladder: sets whose bounding box is
+// target:1 (wide) or 1:target (tall) for targets 1.5 .. maxAspect in steps of
+// about 9%, `per` sets of 5..24 points for each. A set is drawn uniformly from
+// a 100 x S lattice box (50 < S <= 100) and stretched by 2^a along its long
+// side, so that 2^a * 100 / S is the target; a construction that sizes
+// something by the width where the height was meant (or the reverse) shows in
+// a window of aspect ratios only.
+func GenAspect(out string, seed int64, per int, maxAspect float64) error {
+	fo, err := os.Create(out)
+	if err != nil {
+		return err
+	}
+	defer fo.Close()
+	w := bufio.NewWriterSize(fo, 1<<20)
+	defer w.Flush()
+	enc := json.NewEncoder(w)
+	r := rand.New(rand.NewSource(seed))
+	id := 0
+	for target := 1.5; target <= maxAspect; target *= 1.09 {
+		a := 0
+		for float64(int(1)<<(a+1)) <= target {
+			a++
+		}
+		short := int(100*float64(int(1)<<a)/target + 0.5)
+		if a > 10 || short < 10 {
+			break
+		}
+		for rep := 0; rep < 2*per; rep++ {
+			wide := rep%2 == 0
+			want := 5 + r.Intn(20)
+			lo := r.Intn(101 - short)
+			pts := [][]int{}
+			for tries := 0; len(pts) < want && tries < 400*want; tries++ {
+				u, v := r.Intn(101), lo+r.Intn(short+1)
+				switch len(pts) { // the box is spanned: both ends of both sides are used
+				case 0:
+					u = 0
+				case 1:
+					u = 100
+				case 2:
+					v = lo
+				case 3:
+					v = lo + short
+				}
+				p := []int{u, v}
+				if !wide {
+					p = []int{v, u}
+				}
+				if extends(pts, p) {
+					pts = append(pts, p)
+				}
+			}
+			if len(pts) < 4 {
+				continue
+			}
+			r.Shuffle(len(pts), func(i, j int) { pts[i], pts[j] = pts[j], pts[i] })
+			c := Case{Id: id, Tag: "aspect-stretched", Pts: pts, J: []int{0, 0}, Mul: 1, K: r.Intn(9) - 6 - a/2}
+			if wide {
+				c.Ax = a
+			} else {
+				c.Ay = a
+			}
+			id++
+			if err := enc.Encode(c); err != nil {
+				return err
+			}
 		}
 	}
 	return nil
